@@ -235,6 +235,10 @@ class World:
                     r = C.unregisterHandler(f, R)
                 elif op == 'reinit':
                     r = C.__init__(C.__name__)
+                elif op == 'dropcache':
+                    # what unpickling / ghosting does to a _v_ attribute
+                    C._v_utility_registrations_cache = None
+                    r = None
                 else:
                     raise RuntimeError('unknown op %r' % (op,))
             except Exception as e:
